@@ -48,3 +48,15 @@ def notes_confusable(inputs, onset_tol=0.05, pitch_tol=50.0):
             if i != j and abs(iv[i, 0] - iv[j, 0]) <= onset_tol + 1e-12 and abs(1200 * np.log2(p[i] / p[j])) <= pitch_tol + 1e-9:
                 return True
     return False
+
+
+def melody_at_cent_base(inputs, base=10.0, rel=1e-6):
+    """True when some reference or estimated melody frequency equals the base frequency of the cent scale (10 Hz), before or
+    after the joint scaling by inputs['F']: hz2cents maps it to 0 cents, which the pitch accuracies read as 'unvoiced'"""
+    F = float(inputs.get('F', 1.0))
+    for key in ('rf', 'ef'):
+        for f in np.asarray(inputs[key], dtype=float).reshape(-1):
+            for g in (abs(f), abs(f) * F):
+                if g > 0 and abs(g - base) <= rel * base:
+                    return True
+    return False
